@@ -3,7 +3,7 @@
 From Coq Require Import String List ZArith Bool Permutation.
 From stdpp Require Import gmap.
 Import ListNotations.
-Require Import Verif.Merge.Model Verif.Merge.MergeProps Verif.Merge.Current Verif.Gen.MergeRules.
+Require Import Verif.Merge.Model Verif.Merge.MergeProps Verif.Merge.PbProps Verif.Merge.Current Verif.Gen.MergeRules.
 
 (* ---- obligations against the current source (Gen/MergeRules.v, regenerated every run) ---- *)
 Theorem C04_current_pk_mode : pk_mode = PkUnion.
@@ -21,7 +21,7 @@ Theorem C04_current_creates :
               ("EnterSubscribe", "Apps", IfAbsent); ("EnterSubscribe", "Endpoints", Always);
               ("EnterSubscribe", "PublisherEndpoints", IfAbsent);
               ("EnterTable", "Types", IfAbsent); ("EnterTable", "Types", IfAbsent);
-              ("EnterUnion", "Types", Always); ("ExitAlias", "Types", Always) ]%string.
+              ("EnterUnion", "Types", Always); ("EnterView", "Views", Always); ("ExitAlias", "Types", Always) ]%string.
 Proof. exact current_creates. Qed.
 Print Assumptions C04_current_creates.
 
@@ -155,3 +155,111 @@ Theorem C04_order_hypothesis_met_redeclared :
   orefines (bcontent wo_joined) (bcontent (blocks_in_order wo_files (flatten_order wo_files 20%positive))).
 Proof. exact wo_ordered. Qed.
 Print Assumptions C04_order_hypothesis_met_redeclared.
+
+(* ==== round 3, second pass: attributes of events and of REST paths, compiled modules in the import closure ==== *)
+
+(* obligations against the current source: an event's attributes REPLACE (event_f); a method inherits the attribute
+   maps of the enclosing paths, outermost first (rest_eps / method_f); parseSpecs merges a compiled module with
+   mergo.Merge without options (mergo_state) *)
+Theorem C04_current_event_rest :
+  event_attrs = [ "ctx.Attribs_or_modifiers()!=nil&&ctx.Name_str()!=nil => ep.Attrs=s.makeAttributeArray(ctx.Attribs_or_modifiers().( *parser.Attribs_or_modifiersContext))" ]%string
+  /\ rest_inherit = [ "for_,parentAttrs:=ranges.rest_attrs{mergeAttrs(parentAttrs,attrs)}";
+                      "ifctx.Attribs_or_modifiers()!=nil{mergeAttrs(s.makeAttributeArray(ctx.Attribs_or_modifiers().( *parser.Attribs_or_modifiersContext)),attrs)}";
+                      "ifrestEndpoint.Attrs==nil{restEndpoint.Attrs=attrs}else{mergeAttrs(attrs,restEndpoint.Attrs)}" ]%string
+  /\ rest_attrs_stack = [ "EnterApp_decl: s.rest_attrs=[]map[string]*sysl.Attribute{}";
+                          "EnterRest_endpoint: s.rest_attrs=append(s.rest_attrs,s.makeAttributeArray(attribs))";
+                          "EnterRest_endpoint: s.rest_attrs=append(s.rest_attrs,attrs)";
+                          "ExitRest_endpoint: s.rest_attrs=s.rest_attrs[:len(s.rest_attrs)-1]" ]%string.
+Proof. exact (conj current_event_attrs current_rest_inherit). Qed.
+Print Assumptions C04_current_event_rest.
+
+Theorem C04_current_pb_merges : pb_merges = [ "parseSpecs: mergo.Merge(listener.module,v.syslProtoImport)" ]%string.
+Proof. exact current_pb_merges. Qed.
+Print Assumptions C04_current_pb_merges.
+
+(* the layouts of the theorems above are the layouts without compiled files of the function the cases are run through *)
+Theorem C04_denote_files_pb_nil : forall mode files root,
+  denote_files_pb mode files [] root = denote_files mode files root.
+Proof. exact denote_files_pb_nil. Qed.
+Print Assumptions C04_denote_files_pb_nil.
+
+(* merging the module that ANY list of declarations compiles to into a state s is the same as making the declarations
+   on top of s, provided each declaration is on a cell that is FRESH in s (type / key / endpoint / mixin list absent;
+   header without long name and attributes, or only re-opened) or is the compiled file's first declaration on its cell
+   and MERGES (what it compiles to on its own, merged into the cell s has, is what it does to that cell) *)
+Theorem C04_mergo_replay : forall mode s l, pb_content_ok mode s l ->
+  mergo_state s (fold_left (xstep mode) l (∅, ∅)) = fold_left (xstep mode) l s.
+Proof. exact mergo_replay. Qed.
+Print Assumptions C04_mergo_replay.
+
+(* shares of a record / table DO merge: fields the module does not have yet, no header attributes / annotations on
+   the share (or none on the module's type), and - tables - key fields on one side only *)
+Theorem C04_pb_type_share_merges : forall mode s an table n a annos fs a0 fs0,
+  a_types (cur_app (fst s) an) !! n = Some (TRec table a0 fs0) ->
+  (forall nm, In nm (names fs) -> fs0 !! nm = None) ->
+  ((a = [] /\ annos = []) \/ a0 = ∅) ->
+  (table = false \/ snd s !! (an, n) = None \/ key_fields fs (insert_fields fs ∅) = []) ->
+  merges_x mode s (XType an table n a annos fs).
+Proof. exact type_share_merges. Qed.
+Print Assumptions C04_pb_type_share_merges.
+
+(* and so does a subscription to an event the module declares without statements *)
+Theorem C04_pb_subcall_merges : forall mode s pub evt caller key e,
+  a_eps (cur_app (fst s) pub) !! ((None, [evt]) : epkey) = Some e -> e_stmts e = [] -> e_pubsub e = true ->
+  merges_x mode s (XSubCall pub evt caller key).
+Proof. exact subcall_merges. Qed.
+Print Assumptions C04_pb_subcall_merges.
+
+(* PARTIAL for layouts with compiled modules (.pb / .pb.json / .textpb): if every compiled file declares fresh or
+   merging cells only when its turn comes, the layout compiles like the same files as Sysl text (any mode) ... *)
+Theorem C04_merge_pb_fresh : forall mode files pbs root,
+  pb_fresh mode files pbs (flatten_order files root) (∅, ∅) ->
+  denote_files_pb mode files pbs root = denote_files mode files root.
+Proof. exact merge_pb_fresh. Qed.
+Print Assumptions C04_merge_pb_fresh.
+
+(* ... hence like the joined form *)
+Theorem C04_merge_pb_partition_partial : forall files pbs root joined,
+  NoDup (map fst files) -> all_reached files root = true ->
+  wf (bcontent joined) -> refines (bcontent joined) (bcontent (all_blocks files)) ->
+  pb_fresh pk_mode files pbs (flatten_order files root) (∅, ∅) ->
+  Req (denote_files_pb pk_mode files pbs root) (denote_blocks pk_mode joined).
+Proof. rewrite current_pk_mode. exact merge_pb_partition_partial. Qed.
+Print Assumptions C04_merge_pb_partition_partial.
+
+Theorem C04_pb_hypotheses_met :
+  NoDup (map fst w3_files) /\ all_reached w3_files 20%positive = true /\
+  wf (bcontent w2_joined) /\ refines (bcontent w2_joined) (bcontent (all_blocks w3_files)) /\
+  pb_fresh PkUnion w3_files [21%positive] (flatten_order w3_files 20%positive) (∅, ∅).
+Proof. exact w3_hyps. Qed.
+Print Assumptions C04_pb_hypotheses_met.
+
+(* a table whose fields are split between Sysl text ({c}) and a compiled module (the key fields {a, b}) *)
+Theorem C04_pb_hypotheses_met_split_table :
+  NoDup (map fst w4_files) /\ all_reached w4_files 20%positive = true /\
+  wf (bcontent w4_joined) /\ refines (bcontent w4_joined) (bcontent (all_blocks w4_files)) /\
+  pb_fresh PkUnion w4_files [21%positive] (flatten_order w4_files 20%positive) (∅, ∅).
+Proof. exact w4_hyps. Qed.
+Print Assumptions C04_pb_hypotheses_met_split_table.
+
+(* REFUTED without freshness (what the code does: known findings pb-import:pk-split-across-blocks / pb-import:mixin-set):
+   the key fields / mixins a compiled module adds to a table / application that already has some are dropped *)
+Theorem C04_merge_pb_pk_refuted :
+  exists files pbs root joined,
+    NoDup (map fst files) /\ all_reached files root = true /\
+    wf (bcontent joined) /\ refines (bcontent joined) (bcontent (all_blocks files)) /\
+    fst (denote_files_pb PkUnion files pbs root) = fst (denote_blocks PkUnion joined) /\
+    snd (denote_files_pb PkUnion files pbs root) !! (wit_app, 16%positive) = Some [7%positive] /\
+    snd (denote_blocks PkUnion joined) !! (wit_app, 16%positive) = Some [7%positive; 8%positive] /\
+    ~ Req (denote_files_pb PkUnion files pbs root) (denote_blocks PkUnion joined).
+Proof. exact merge_pb_pk_refuted. Qed.
+Print Assumptions C04_merge_pb_pk_refuted.
+
+Theorem C04_merge_pb_mixin_refuted :
+  refines (bcontent wm_joined) (bcontent (all_blocks wm_files)) /\ wf (bcontent wm_joined) /\
+  snd (denote_files_pb PkUnion wm_files [21%positive] 20%positive) !! (wit_app, mixin_key) = Some [36%positive] /\
+  snd (denote_blocks PkUnion wm_joined) !! (wit_app, mixin_key) = Some [36%positive; 37%positive] /\
+  Req (denote_files PkUnion wm_files 20%positive) (denote_blocks PkUnion wm_joined) /\
+  ~ Req (denote_files_pb PkUnion wm_files [21%positive] 20%positive) (denote_blocks PkUnion wm_joined).
+Proof. exact merge_pb_mixin_refuted. Qed.
+Print Assumptions C04_merge_pb_mixin_refuted.
